@@ -33,7 +33,20 @@ def plan(tier, seed):
     return specs
 
 
-def check(res, text, seen):
+def compact(text):
+    """the same expression without the optional blanks: a blank stays only between two word characters (`a is byte`,
+    `not x`); `a - -b` becomes `a--b`, `a + +b` becomes `a++b`"""
+    import re
+    if '"' in text or "' '" in text:
+        return text
+    return re.sub(r'(?<![\w\']) +| +(?![\w\'])', '', text)
+
+
+def check(res, text, seen, also_compact=True):
+    if also_compact:
+        c = compact(text)
+        if c != text:
+            check(res, c, seen, False)
     if text in seen:
         return
     seen.add(text)
